@@ -72,6 +72,8 @@ REWRITES = {
     "and_then_inline": ("opt_closure", "and_then", ("", ""), "Option::and_then(f) inlined as its std definition `match self { Some(x) => f(x), None => None }` (Verus has no closures that capture &mut)"),
     "map_inline": ("opt_closure", "map", ("Some(", ")"), "Option::map(f) inlined as its std definition `match self { Some(x) => Some(f(x)), None => None }`"),
     "range_eq_deref": ("re", r"\*(\w+) == token\.range", r"range_eq(\1, &token.range)", "derived PartialEq for Range<usize> has no vstd spec; shim compares start and end (the derived definition)"),
+    "string_replace_range": ("m2f", "replace_range", "string_replace_range", "", "String::replace_range has no vstd spec; shim with the std call (receiver is already `&mut String` in the lifted closure)"),
+    "string_len": ("re", r"\btemp_text\.len\(\)", r"string_len(&temp_text)", "String::len (byte length) — shim with the std call"),
     "drop_const_fn": ("re", r"\bconst fn\b", "fn", "const fn that calls non-const shim"),
 }
 
